@@ -40,7 +40,10 @@ def sh(cmd, cwd=None, timeout=None, env=None, input=None):
                            text=True, errors="replace")
         return p.returncode, p.stdout
     except subprocess.TimeoutExpired as ex:
-        return 124, (ex.stdout or "") + "\nTIMEOUT"
+        out = ex.stdout or ""
+        if isinstance(out, bytes):
+            out = out.decode(errors="replace")
+        return 124, out + "\nTIMEOUT"
 
 
 def ensure_dir(d):
